@@ -346,6 +346,16 @@ let run_r (f : string array) : string =
            Printf.sprintf "R %s tx[%s] %s %s ^%s %s" f.(1) (show_hdr p x') (hex_of_bytes wire)
              (show_sess false s') base_show tok)
 
+(* E <id> <world> <session> <plain;proto> <payload>: Session::encode of an arbitrary header *)
+let run_e (f : string array) : string =
+  let world = parse_list f.(2) parse_entry in
+  let s = parse_sess 0 f.(3) in
+  let (p, x) = parse_hdr f.(4) in
+  match session_encode world s p x (bytes_of_hex f.(5)) with
+  | Ok wire -> Printf.sprintf "E %s %s" f.(1) (hex_of_bytes wire)
+  | Err c -> Printf.sprintf "E %s err:%c" f.(1) (err_char c)
+  | Panic _ -> Printf.sprintf "E %s err:!" f.(1)
+
 (* ---------------------------------------------------------------- monitor *)
 
 (* `<class>[<fields>]<state>` *)
@@ -373,14 +383,16 @@ let parse_token (t : string) : token =
   { t_class = c; t_fields = fields; t_state = state }
 
 let observation_of (before : pstate) (groups : gcand list) (tk : token) : observation =
-  let after = match tk.t_state with
-    | None -> before.st_sessions
-    | Some s -> (parse_state s groups).st_sessions in
+  let after_st = match tk.t_state with
+    | None -> before
+    | Some s -> parse_state s groups in
+  let after = after_st.st_sessions in
+  let gstore_changed = (show_gstore after_st.st_gstore <> show_gstore before.st_gstore) in
   let ok = match tk.t_class with 'K' -> Some true | 'k' -> Some false | _ -> None in
   let (p, x, pl) = match tk.t_fields with
     | Some v -> v
     | None -> (plain_new, proto_new, []) in
-  mk_observation ok p x pl before.st_sessions after
+  mk_observation ok p x pl before.st_sessions after gstore_changed
 
 let split_details (tok : string) : string * (int * string) list =
   match String.split_on_char '@' tok with
@@ -433,6 +445,7 @@ let spec_d (f : string array) (impl : string list) : string =
   | _ -> Printf.sprintf "D %s 0 no-base-state" f.(1)
 
 let spec_r (f : string array) (impl : string list) : string =
+  let world = parse_list f.(2) parse_entry in
   let groups = parse_list f.(11) parse_group in
   let from = parse_addr f.(12) in
   let payload = bytes_of_hex f.(9) in
@@ -440,14 +453,16 @@ let spec_r (f : string array) (impl : string list) : string =
   | [e] when String.length e >= 4 && String.sub e 0 4 = "err:" ->
       (* the sender refused: nothing was sent, nothing to compare *)
       Printf.sprintf "R %s 1" f.(1)
-  | [tx; _wire; _after; base; tok] ->
+  | [tx; wire; _after; base; tok] ->
       let hdr = String.sub tx 3 (String.length tx - 4) in
       let (p, x) = parse_hdr hdr in
       let before = parse_state (String.sub base 1 (String.length base - 1)) groups in
       let ob = observation_of before groups (parse_token tok) in
       (* the receiving transport is the one the datagram came in on *)
-      if mon_roundtrip (addr_reliable from) p x payload ob then Printf.sprintf "R %s 1" f.(1)
-      else Printf.sprintf "R %s 0 roundtrip" f.(1)
+      if not (mon_roundtrip (addr_reliable from) p x payload ob) then Printf.sprintf "R %s 0 roundtrip" f.(1)
+      (* and what the sender put on the wire must itself be an honest sealing for the receiver *)
+      else if not (mon_decode world before from (bytes_of_hex wire) ob) then Printf.sprintf "R %s 0 unauthentic" f.(1)
+      else Printf.sprintf "R %s 1" f.(1)
   | _ -> Printf.sprintf "R %s 0 shape" f.(1)
 
 let () =
@@ -471,6 +486,10 @@ let () =
             Some (if spec_mode then spec_d f impl else run_d f)
           else if Array.length f = 14 && f.(0) = "R" then
             Some (if spec_mode then spec_r f impl else run_r f)
+          else if Array.length f = 6 && f.(0) = "E" then
+            (* the encoder has no monitor of its own: it is tied by equality with the model, and the
+               datagrams it produces are judged by the receiving side (R lines) *)
+            Some (if spec_mode then Printf.sprintf "E %s 1" f.(1) else run_e f)
           else None
         with Failure msg | Invalid_argument msg ->
           Some (Printf.sprintf "%s %s DRIVER-ERROR:%s" f.(0) f.(1)
